@@ -1,7 +1,7 @@
 /-
   C11 — intercepted flows are held until resumed, killed flows are never forwarded.
 
-  Three small models, composed:
+  Three small models, and their product (`S`/`pstep`/`prun`, at the end of this file):
 
   * `L`: one protocol layer under the pause semantics of `mitmproxy.proxy.layer.Layer.handle_event`, reduced to
     what matters here: a message arrives → its hook is fired and the layer pauses; events arriving meanwhile are
@@ -190,5 +190,80 @@ def stepA (a : A) : Op → A
   | .kill => if a.f.killable then (let f := a.f.kill; { f, tasks := wake f a.tasks }) else a
 
 def runA (a : A) (ops : List Op) : A := ops.foldl stepA a
+
+-- ------------------------------------------------------------------------------------------------
+-- the product: one flow's layer together with the flow object and its hook tasks.
+-- `In.complete` is no longer a free input: `deliver` (the event loop handing HookCompleted to the layer) is enabled only
+-- when the hook task of the pending message is `done`, i.e. `handle_hook` has returned from `wait_for_resume`; the
+-- verdict is read off the flow (error flag) and the message (content / dropped) as they are at that moment.
+
+structure S where
+  l : L := {}
+  a : A := {}
+  cur : Nat := 0            -- content of the message whose hook is pending, as the flow object holds it now
+  dropped : Bool := false   -- WebSocketMessage.drop() was called on it
+  deriving DecidableEq, Repr, Inhabited
+
+inductive PIn where
+  | arrive (m : Msg)
+  | deliver                     -- HookCompleted reaches the layer (if the hook task is done; otherwise nothing happens)
+  | close (kills gone : Bool)
+  | intercept | resume | kill   -- the user (or an addon) acts on the flow
+  | edit (c : Nat)              -- the user edits the held message
+  | drop
+  deriving DecidableEq, Repr, Inhabited
+
+/-- what the layer sees of a product input; `none`: nothing.  `deliver` is ENABLED only if the pending hook's task
+    (the most recently started one) is `done`. -/
+def lin (s : S) : PIn → Option In
+  | .arrive m => some (.arrive m)
+  | .deliver =>
+    if s.l.paused.isSome && s.a.tasks.getLast? == some Task.done
+    then some (.complete ⟨s.a.f.error, s.dropped, s.cur⟩) else none
+  | .close kl gn => some (.close kl gn)
+  | _ => none
+
+/-- the message whose hook fires in `step k l x` (the layer becomes paused on it) -/
+def newHook (l : L) : In → Option Msg
+  | .arrive m => match l.paused with | some _ => none | none => some m
+  | .complete _ => match l.paused with
+    | none => none
+    | some _ => l.queue.head?
+  | .close _ _ => none
+
+/-- a hook task starts for message `n`: the Intercept addon intercepts it or not (`pol`), then `wait_for_resume` -/
+def startHook (pol : Nat → Bool) (s : S) (n : Msg) : S :=
+  { s with a := stepA s.a (.hook (pol n.id)), cur := n.content, dropped := false }
+
+/-- the user's part of a product input -/
+def userStep (s : S) : PIn → S
+  | .intercept => { s with a := stepA s.a .intercept }
+  | .resume => { s with a := stepA s.a .resume }
+  | .kill => { s with a := stepA s.a .kill }
+  | .edit c => { s with cur := c }
+  | .drop => { s with dropped := true }
+  | _ => s
+
+def pstep (k : Kind) (pol : Nat → Bool) (s : S) (i : PIn) : S × List Out :=
+  match lin s i with
+  | none => (userStep s i, [])
+  | some x =>
+    let r := step k s.l x
+    let s2 : S := { s with l := r.1 }
+    match newHook s.l x with
+    | some n => (startHook pol s2 n, r.2)
+    | none => (s2, r.2)
+
+def prun (k : Kind) (pol : Nat → Bool) : S → List PIn → S × List Out
+  | s, [] => (s, [])
+  | s, i :: is =>
+    let (s1, o1) := pstep k pol s i
+    let (s2, o2) := prun k pol s1 is
+    (s2, o1 ++ o2)
+
+def parrivals : List PIn → List Nat
+  | [] => []
+  | .arrive m :: is => m.id :: parrivals is
+  | _ :: is => parrivals is
 
 end MitmVerif.C11
